@@ -1468,26 +1468,38 @@ static int upipe_h264f_handle_nal(struct upipe *upipe, struct ubuf *ubuf,
         *nal_p = nal;
 
     upipe_verbose_va(upipe, "handling NAL %"PRIu8, h264nalst_get_type(nal));
+    /* the parsers must not read beyond the end of the NAL unit */
+    ubuf = ubuf_block_splice(ubuf, offset, size);
+    if (unlikely(ubuf == NULL))
+        return UBASE_ERR_INVALID;
+
+    int err = UBASE_ERR_NONE;
     switch (h264nalst_get_type(nal)) {
         case H264NAL_TYPE_SEI:
-            return upipe_h264f_handle_sei(upipe, ubuf, offset, size);
+            err = upipe_h264f_handle_sei(upipe, ubuf, 0, size);
+            break;
         case H264NAL_TYPE_SPS:
-            return upipe_h264f_handle_sps(upipe, ubuf, offset, size);
+            err = upipe_h264f_handle_sps(upipe, ubuf, 0, size);
+            break;
         case H264NAL_TYPE_SPSX:
-            return upipe_h264f_handle_sps_ext(upipe, ubuf, offset, size);
+            err = upipe_h264f_handle_sps_ext(upipe, ubuf, 0, size);
+            break;
         case H264NAL_TYPE_PPS:
-            return upipe_h264f_handle_pps(upipe, ubuf, offset, size);
+            err = upipe_h264f_handle_pps(upipe, ubuf, 0, size);
+            break;
         case H264NAL_TYPE_NONIDR:
         case H264NAL_TYPE_PARTA:
         case H264NAL_TYPE_PARTB:
         case H264NAL_TYPE_PARTC:
         case H264NAL_TYPE_IDR:
-            return upipe_h264f_handle_slice(upipe, ubuf, offset, size, nal,
-                                            au_slice_p);
+            err = upipe_h264f_handle_slice(upipe, ubuf, 0, size, nal,
+                                           au_slice_p);
+            break;
         default:
             break;
     }
-    return UBASE_ERR_NONE;
+    ubuf_free(ubuf);
+    return err;
 }
 
 /** @internal @This uses annex B global headers.
